@@ -53,7 +53,22 @@ CONFIG = {
 
 HERE = os.path.dirname(os.path.abspath(__file__))
 STANDIN = os.path.join(HERE, "eyaml_standin.py")
-ROOT = "/tmp/save_%d" % os.getpid()
+# Scratch space: /tmp/save_<pid of the process that imported this module>/ (the
+# check's main process; the forked workers inherit the name and work in their
+# own sub-directory).  Pool workers are terminated without running exit
+# handlers, so the importing process removes the whole tree when it exits.
+_OWNER = os.getpid()
+TOP = "/tmp/save_%d" % _OWNER
+ROOT = TOP
+
+
+def _cleanup():
+    if os.getpid() == _OWNER:
+        shutil.rmtree(TOP, ignore_errors=True)
+
+
+import atexit  # noqa: E402
+atexit.register(_cleanup)
 _ENV = {}
 _REF = {}
 _COUNTER = [0]
@@ -94,10 +109,8 @@ def init_worker():
     from yamlpath.commands import yaml_set, yaml_merge, eyaml_rotate_keys
     _ENV.update(set=yaml_set, merge=yaml_merge, rotate=eyaml_rotate_keys)
     global ROOT
-    ROOT = "/tmp/save_%d" % os.getpid()
+    ROOT = os.path.join(TOP, "w%d" % os.getpid())
     os.makedirs(ROOT, exist_ok=True)
-    import atexit
-    atexit.register(lambda: shutil.rmtree(ROOT, ignore_errors=True))
     kd = os.path.join(ROOT, "keys")
     os.makedirs(kd, exist_ok=True)
     for name in ("old", "new"):
